@@ -5,6 +5,7 @@ package h_cli
 
 import (
 	"context"
+	"errors"
 	"os"
 	"time"
 
@@ -16,6 +17,8 @@ import (
 	"github.com/yandex/pandora/zverif/vsignal"
 	"go.uber.org/zap"
 )
+
+var errPoolFailed = errors.New("provider of the second pool failed")
 
 type World struct {
 	T0       time.Time
@@ -29,6 +32,9 @@ type World struct {
 	Signalled        bool
 	SignalTime       time.Duration
 	ReportedAtSignal int // len(Reported) when the signal was delivered
+
+	Failed         bool // the second pool's provider has failed (the run fails by itself)
+	ReportedAtFail int  // len(Reported) at that moment
 
 	Exited        bool
 	ExitAt        time.Duration
@@ -57,6 +63,33 @@ func (p *prov) Run(ctx context.Context, _ core.ProviderDeps) error {
 }
 func (p *prov) Acquire() (core.Ammo, bool) { a, ok := <-p.sink; return a, ok }
 func (p *prov) Release(core.Ammo)          {}
+
+// failProv is the provider of a second pool: it fails after a delay, which fails the whole run.
+type failProv struct {
+	w     *World
+	after time.Duration
+	sink  chan core.Ammo
+}
+
+func (p *failProv) Run(ctx context.Context, _ core.ProviderDeps) error {
+	defer close(p.sink)
+	select {
+	case <-time.After(p.after):
+		p.w.Failed = true
+		p.w.ReportedAtFail = len(p.w.Reported)
+		return errPoolFailed
+	case <-ctx.Done():
+		return nil
+	}
+}
+func (p *failProv) Acquire() (core.Ammo, bool) { a, ok := <-p.sink; return a, ok }
+func (p *failProv) Release(core.Ammo)          {}
+
+// nullAgg is the second pool's aggregator.
+type nullAgg struct{}
+
+func (nullAgg) Run(ctx context.Context, _ core.AggregatorDeps) error { <-ctx.Done(); return nil }
+func (nullAgg) Report(core.Sample)                                   {}
 
 type gun struct {
 	w    *World
